@@ -166,15 +166,33 @@ class C08(Engine):
         faults = random.Random(mix(seed, 'faults'))
         population = {}
         result.stats['climbs'] += 1
+        # (Climbs that maximise tracemalloc peaks instead of steps were
+        # tried and withdrawn: the peak of a decode depends on what the
+        # worker process did before - lazily filled caches of the library
+        # and the interpreter - so the search was not repeatable.)
+        by_memory = False
+
+        if by_memory:
+            result.stats['climbs-by-memory'] += 1
 
         def evaluate(data):
             budget = world.decode_budget(len(data))
+            peak = None
+
+            if by_memory:
+                tracemalloc.start()
+                tracemalloc.reset_peak()
+                base = tracemalloc.get_traced_memory()[0]
 
             try:
                 outcome, ticks = steps.call(
                     lambda: receiver.decode(type_name, data), budget)
             except MemoryError:
                 outcome, ticks = ['memory-error'], 0
+
+            if by_memory:
+                peak = tracemalloc.get_traced_memory()[1] - base
+                tracemalloc.stop()
 
             result.ticks += ticks
             result.evaluations += 1
@@ -195,6 +213,18 @@ class C08(Engine):
                     outcome[0] == 'err'
                     and outcome[1] == 'builtins.MemoryError'):
                 result.violation('memory', {'codec': codec}, detail, case)
+            elif peak is not None:
+                bound = MEMORY_BASE + MEMORY_PER_BYTE * len(data)
+
+                if peak > bound:
+                    detail.update({'peak': peak, 'bound': bound})
+                    result.violation('memory', {'codec': codec}, detail,
+                                     dict(case, memory=True))
+
+                result.key(codec, type_name, data.hex())
+
+                # Fraction of the memory bound used.
+                return peak / float(bound)
 
             result.key(codec, type_name, data.hex())
 
